@@ -513,6 +513,20 @@ func rulesC06(c *Ctx) {
 				}
 			}
 		}
+		// a method that only hands on the result of one private helper (return c.copyKind(...)) is
+		// judged by that helper
+		if hs := handsOnHelper(f); hs != nil {
+			hasOwn := false
+			eachInstr(f, func(_ *ssa.BasicBlock, _ int, in ssa.Instruction) {
+				if isRec(in) || isBufOp(in) {
+					hasOwn = true
+				}
+			})
+			if !hasOwn {
+				c.Note("%s hands on the result of %s", fname(f), fname(hs))
+				f = hs
+			}
+		}
 		exits := RunPaths(f, nil, 0, func(st int, in ssa.Instruction, d bool) int {
 			if isRec(in) {
 				st |= 2
@@ -702,6 +716,15 @@ func ruleCommitReplays(c *Ctx, commit *ssa.Function, roles *cacheRoles, group []
 					if call, ok := resolve(r.Results[ei]).(*ssa.Call); ok {
 						if h := call.Call.StaticCallee(); h != nil && inG[h] {
 							for k := range replayed(h, depth+1) {
+								got[k] = true
+							}
+						}
+					}
+					// stages called one after the other: a stage call that dominates this return has
+					// replayed its journals (its failure is returned - rule R3)
+					for _, ci := range Calls(f) {
+						if ci.Static != nil && inG[ci.Static] && ci.Static != f && ci.Kind == "call" && dominates(ci.Instr, r) {
+							for k := range replayed(ci.Static, depth+1) {
 								got[k] = true
 							}
 						}
@@ -1039,4 +1062,32 @@ func privateGroup(p *Prog, commit *ssa.Function, syncOnly bool) []*ssa.Function 
 		}
 	}
 	return out
+}
+
+// handsOnHelper: every return of f is `return h(...)` for one and the same
+// unexported function h of f's package; returns h.
+func handsOnHelper(f *ssa.Function) *ssa.Function {
+	var h *ssa.Function
+	for _, r := range returnsOf(f) {
+		if len(r.Results) == 0 {
+			return nil
+		}
+		v := resolve(r.Results[len(r.Results)-1])
+		var call *ssa.Call
+		switch x := v.(type) {
+		case *ssa.Call:
+			call = x
+		case *ssa.Extract:
+			call, _ = x.Tuple.(*ssa.Call)
+		}
+		if call == nil {
+			return nil
+		}
+		g := call.Call.StaticCallee()
+		if g == nil || g.Pkg != f.Pkg || g.Blocks == nil || (g.Object() != nil && g.Object().Exported()) || (h != nil && h != g) {
+			return nil
+		}
+		h = g
+	}
+	return h
 }
